@@ -27,7 +27,7 @@ if __name__ == "__main__":
     ds = sorted(x for x in os.listdir(os.path.join(suite.VERIF, "seeded")) if os.path.exists(os.path.join(suite.VERIF, "seeded", x, "patch.diff")))
     if len(sys.argv) > 1:
         ds = [d for d in ds if d in sys.argv[1:]]
-    with cf.ThreadPoolExecutor(max_workers=5) as ex:
+    with cf.ThreadPoolExecutor(max_workers=10) as ex:
         for d, fired, errs in ex.map(one, ds):
             print(d, "caught by", fired, ("ERRORS " + str(errs)) if errs else "")
             sys.stdout.flush()
